@@ -223,7 +223,7 @@ def pad_big(r):
 ALL_BUILD = ("sr", "rr", "bye", "app", "sdes", "unknown", "fb", "custom", "compound", "chunk", "item", "fci", "pb")
 
 
-def build_stream(r, tier, kinds=ALL_BUILD, styles=("canon", "canon", "shuffle", "repeat", "owned"), big=None):
+def build_stream(r, tier, kinds=ALL_BUILD, styles=("canon", "canon", "shuffle", "repeat", "owned", "probe", "probe"), big=None):
     """big: include the configurations around the 65536-word limit (slow: hundreds of kilobytes each);
     default: only in the thorough tier"""
     ce = []
@@ -247,7 +247,7 @@ def group_stream(r, tier):
         for cfg in cfgs[:n]:
             base = len(ce)
             ce.append((cfg, gen.render(cfg, r, "canon"), {"style": "canon", "group_rel": 0}))
-            for style in ("shuffle", "repeat", "owned", "shuffle"):
+            for style in ("shuffle", "repeat", "owned", "probe", "probe"):
                 e = gen.render(cfg, r, style)
                 ce.append((cfg, e, {"style": style, "group_rel": len(ce) - base}))
     reqs = fidelity.build_requests(ce, "quick", r)
@@ -408,7 +408,7 @@ def project(pid, t, meta):
         for k, v in t.items():
             bk = base_key(k)
             if bk == "res": out[k] = cls(v)
-            elif bk.startswith(("typed.", "conv.", "conv_same.", "as.", "fci.", "spec.")) or bk == "strs": continue
+            elif bk.startswith(("typed.", "conv.", "conv_same.", "convo.", "convo_same.", "as.", "aso.", "fci.", "spec.")) or bk == "strs": continue
             else: out[k] = v
         return out
     if pid == "C10":
@@ -429,11 +429,12 @@ def project(pid, t, meta):
     if pid == "C12":
         if not (op == "parse" and meta.get("kind") == "packet"): return out
         for k, v in t.items():
-            if k in ("res", "variant", "data") or k.startswith(("typed.", "conv.", "conv_same.")): out[k] = v
+            if k in ("res", "variant", "data") or k.startswith(("typed.", "conv.", "conv_same.", "convo.", "convo_same.", "as.", "aso.")): out[k] = v
         return out
     if pid == "C13":
         if op != "pad": return out
-        return {k: v for k, v in t.items() if not k.startswith(("spec.",))}
+        return {k: v for k, v in t.items()
+                if not k.startswith("spec.") and not base_key(k).startswith(("typed.", "conv.", "conv_same.", "convo.", "convo_same.", "as.", "aso."))}
     if pid == "C15":
         for k, v in t.items():
             bk = base_key(k)
